@@ -407,7 +407,7 @@ Qed.
 
 Definition page_preserving (o : op) : bool :=
   match o with
-  | SetMargins _ _ _ _ | SetHF _ _ | SetGutter _ | SetGrid _ _ _ | ClearGrid | Reopen => true
+  | SetMargins _ _ _ _ | SetHF _ _ | SetGutter _ | SetGrid _ _ _ | ClearGrid | Reopen | Other => true
   | _ => false
   end.
 
@@ -454,7 +454,7 @@ Lemma set_get_tw7 s st : validate s = true ->
 Proof. intros H. rewrite set_get_margins by exact H. unfold tw7, mar_of. rewrite !to_tw_Tw. reflexivity. Qed.
 
 Definition names_no_length (o : op) : bool :=
-  match o with SetSize _ | SetCustom _ _ | SetOrient _ | SetGrid _ _ _ | ClearGrid | Reopen => true | _ => false end.
+  match o with SetSize _ | SetCustom _ _ | SetOrient _ | SetGrid _ _ _ | ClearGrid | Reopen | Other => true | _ => false end.
 
 Theorem setter_frame_lengths st o : names_no_length o = true ->
   tw7 (mar_of (get (fst (step st o)))) = tw7 (mar_of (get st)).
@@ -571,7 +571,7 @@ Proof.
 Qed.
 
 Definition names_no_grid (o : op) : bool :=
-  match o with SetSize _ | SetCustom _ _ | SetOrient _ | SetMargins _ _ _ _ | SetHF _ _ | SetGutter _ | Reopen => true | _ => false end.
+  match o with SetSize _ | SetCustom _ _ | SetOrient _ | SetMargins _ _ _ _ | SetHF _ _ | SetGutter _ | Reopen | Other => true | _ => false end.
 
 Theorem setter_frame_grid st o : grid_wf (grid st) -> names_no_grid o = true ->
   grid_of (get (fst (step st o))) = grid_of (get st).
